@@ -21,6 +21,7 @@ pub use crate::keyspace::{
     NUM_SOURCES,
     READ_REPAIR_SOURCE_ID,
 };
+pub use crate::replication::verif_hooks_distributor::{start_distributor, Distributor};
 pub use crate::replication::verif_hooks::{
     repair_peer,
     repair_peer_concurrent,
